@@ -16,7 +16,7 @@ var coreStrings = []string{
 	`'`, `x'`, `'x`, `a'b`, `\`, `x\`, `\\`, `\'`, `x\'`, `\\'`, `\\\'`, `''`,
 	`') OR 1=1 --`, `\') OR 1=1 --`, `'; DROP TABLE samples_v3; --`,
 	`a\%`, `100%`, `a_b`, `%'`, `\_`,
-	"\x00", "a\x00'", "\n", "'\n--", `--`, `/*`, `*/`, `#`, `;`, `$$`,
+	"\x00", "a\x00'", "\n", "'\n--", `--`, `/*`, `*/`, `#`, `;`, `$$`, `$1`, `x$1 OR 1 OR $2`, `a?b`,
 	"\xff", "\xff'", "é'日本", `"`, "`", `"'` + "`",
 	`{}`, `}}`, `sleep(3)`, `(SELECT 1)`, "ʼ＇’", ``,
 	// accepted by identifier slots, still meaningful to SQL
@@ -30,6 +30,8 @@ var extraStrings = []string{
 	`' OR '1'='1`, `x' OR 'x'='x' --`, `' UNION SELECT 1 --`, `' UNION ALL SELECT name FROM system.tables --`, `'))) OR 1=1 --`, `') == (1)) OR ((1) == (1`, `'); SELECT sleep(3); --`,
 	`x' /*`, `x' --`, `x' #`, `*/ x`, `/* x */`, `/*/`, `-- x`, `# x`, `;;`, `a;b`, `a -- b`, `a/**/b`,
 	`$$x$$`, `$a$`, `$a$'$a$`, `$`, `x$$'`, `$$'$$`,
+	// placeholders of client-side argument binding (numeric, positional, named)
+	`$1`, `$2`, `x$1 OR 1 OR $2`, `$1'`, `?`, `a?b`, `@a`, `@p1`,
 	`%`, `_`, `%_`, `%%`, `\%`, `\\%`, `\\\%`, `a%b'`, `_'`, `\%'`, `%\`, `_\`, `a\_b\%c`, `\\_`,
 	"a\x00b", "\x00\x00", "\x00'", "\\\x00", "a\nb", "\r\n", "\r", "\t", "\b", "\x1a", "\x1a'", "\x7f", "\x1b", "\x0b", "\x0c", "\\\n", "'\r\n'",
 	"\xc3", "\xe2\x80", "\xc0\xa7", "\xc0\xa7 OR 1=1", "\xfe\xff", "\xf0\x9f", "a\xffb'", "\xbf\x27", "\xbf\\\x27", "\xa1\x5c\x27",
